@@ -372,6 +372,7 @@ class HandshakeOpenFlowHandlers (OpenFlowHandlers):
     con._deferred_port_status.append(msg)
 
   def _finish_connecting (self, con):
+    if con.disconnected: return
     con.ofnexus._connect(con)
     con.info("connected")
     con.connect_time = time.time()
